@@ -128,7 +128,10 @@ def gjColumn (st : Except Err (BMat × BMat)) (c : Nat) : Except Err (BMat × BM
       let others := (List.range m.r).filter fun i => decide (i ≠ c) && m1.f i c
       .ok ((others.foldl (fun acc i => addRows acc c i) m1).norm, (others.foldl (fun acc i => addRows acc c i) t1).norm)
 
-def mulM (a b : BMat) : BMat := { r := a.r, c := b.c, f := matMul a.c a.f b.f }
+/-- is `t` a two-sided inverse of the `k × k` matrix `a` over GF(2)? -/
+def isInverse (k : Nat) (t a : Adj) : Bool :=
+  (List.range k).all fun i => (List.range k).all fun j =>
+    matMul k t a i j == idM i j && matMul k a t i j == idM i j
 
 /-- `np.linalg.inv(a) % 2` for an integer matrix of odd determinant, computed exactly over GF(2) by Gauss–Jordan
     elimination; a singular matrix gives `LinAlgError` (a `ValueError`).  The result is *checked* to be a two-sided
@@ -140,7 +143,7 @@ def gf2Inv (a : BMat) : Except Err BMat :=
     match (List.range a.r).foldl gjColumn (.ok (a.norm, (identM a.r).norm)) with
     | .error e => .error e
     | .ok (_, t) =>
-      if (mulM t a).beq (identM a.r) && (mulM a t).beq (identM a.r) then .ok t else .error .value
+      if isInverse a.r t.f a.f then .ok { r := a.r, c := a.r, f := t.f } else .error .value
 
 /-- the `i`-th vector built by `_solution_basis_finder`: `x = A⁻¹ b_i` on the pivot columns, then the unit vector `e_i` is
     spliced in at the free columns by successive `list.insert(col_list[j], basis_list[i, j])` -/
